@@ -797,6 +797,10 @@ var MergeFunc = function.New(&function.Spec{
 				for attr, aty := range ty.AttributeTypes() {
 					attrs[attr] = aty
 				}
+			case ty.IsObjectType():
+				// A null object contributes no attributes, so the result
+				// cannot simply have the type of the arguments.
+				matching = false
 			case ty.IsMapType():
 				switch {
 				case arg.IsNull():
